@@ -10,6 +10,7 @@ from ..tensor import Tensor, broadcast_shapes, _toreal
 
 DrawR = z3.Function("DrawR", z3.IntSort(), z3.IntSort(), z3.RealSort(), z3.RealSort(), z3.RealSort())  # (dist id, nonce, p1, p2)
 DrawRI = z3.Function("DrawRI", z3.IntSort(), z3.IntSort(), z3.IntSort(), z3.RealSort(), z3.RealSort(), z3.RealSort())  # + coordinate
+DrawRI2 = z3.Function("DrawRI2", z3.IntSort(), z3.IntSort(), z3.IntSort(), z3.IntSort(), z3.RealSort(), z3.RealSort(), z3.RealSort())  # + two coordinates
 
 
 class StubDist:
@@ -36,12 +37,16 @@ class StubDist:
                 raise EngineLimit("stub sample with tensor parameters and sample_shape")
             ts = [a if isinstance(a, Tensor) else Tensor((), lambda idx, a=a: a) for a in p[:2]]
             shp, ia, ib = broadcast_shapes(ts[0].shape, ts[1].shape)
+            if len(shp) == 2:  # one independent draw per element of the rank-2 broadcast shape
+                return Tensor(shp, lambda idx: DrawRI2(self.id, nu, idx[0], idx[1], _toreal(ts[0].fn(ia(idx))), _toreal(ts[1].fn(ib(idx)))))
             if len(shp) != 1:
                 raise EngineLimit("stub sample with rank-%d parameters" % len(shp))
             return Tensor(shp, lambda idx: DrawRI(self.id, nu, idx[0], _toreal(ts[0].fn(ia(idx))), _toreal(ts[1].fn(ib(idx)))))
         shape = tuple(sample_shape) if isinstance(sample_shape, (tuple, list)) else (sample_shape,)
         if not shape:
             return Sym(DrawR(self.id, nu, p[0], p[1]))
+        if len(shape) == 2:
+            return Tensor(shape, lambda idx: DrawRI2(self.id, nu, idx[0], idx[1], p[0], p[1]))
         if len(shape) != 1:
             raise EngineLimit("stub sample with rank-%d sample_shape" % len(shape))
         return Tensor(shape, lambda idx: DrawRI(self.id, nu, idx[0], p[0], p[1]))
